@@ -63,7 +63,7 @@ def gen(rng, ctx):
         return {"src": "lib", "lib": rng.choice(LIB_THOROUGH if big else LIB_QUICK)}
     if r < 0.4:
         ni = rng.randint(1, 5)
-        cd = G.rand_circuit(rng, ni, rng.randint(1, 9 if not big else 14), max_fanin=5, p_wide=0.3, p_const=rng.choice([0.0, 0.4]), p_input_output=0.0, p_const_output=0.2)
+        cd = G.rand_circuit(rng, ni, rng.randint(1, 9 if not big else 14), max_fanin=5, p_wide=0.3, p_const=rng.choice([0.0, 0.4]), p_input_output=rng.choice([0.0, 0.2]), p_const_output=0.2)
         if rng.random() < 0.4:
             cd = G.add_blackboxes(rng, cd, rng.randint(1, 2), p_unconnected=rng.choice([0.0, 0.4]))
         return {"src": "writer", "c": cd}
@@ -153,6 +153,8 @@ def check(case, ctx):
         ctx.count("unconnected_pins")
     if nf.bbs:
         ctx.count("with_blackboxes")
+    if ns.inputs() & ns.outputs:
+        ctx.count("input_is_output")
 
     def blame():
         if ast is None:
@@ -204,5 +206,5 @@ def check(case, ctx):
 
 
 def gates(counters, table, tier):
-    need = ["nets_named_like_constants", "src:ast", "src:writer", "src:lib", "with_constants", "unconnected_pins", "with_blackboxes", "graphs_identical", "functions_compared", "lib:c17", "lib:s27"]
+    need = ["input_is_output", "nets_named_like_constants", "src:ast", "src:writer", "src:lib", "with_constants", "unconnected_pins", "with_blackboxes", "graphs_identical", "functions_compared", "lib:c17", "lib:s27"]
     return [f"{k} seen {counters.get(k, 0)} times" for k in need if counters.get(k, 0) < 2]
